@@ -128,6 +128,14 @@ def load_known_findings():
         return json.load(f)
 
 
+def known_listed(prop, fid):
+    """the listed finding [fid] when it is listed for property [prop], else None"""
+    for f in load_known_findings().get("findings", []):
+        if f.get("id") == fid and prop in f.get("properties", []):
+            return f
+    return None
+
+
 def write_lines(path, lines):
     os.makedirs(os.path.dirname(path), exist_ok=True)
     with open(path, "w") as f:
